@@ -108,7 +108,7 @@ def check_dataset(ds, rk, where, deep=True):
         msg = check_ranking(r, b, f"{where} ranking {i}")
         if msg:
             return msg
-        if ds[i] is not r:
+        if [sorted((key(e) for e in b), key=repr) for b in ds[i].buckets] != [sorted((key(e) for e in b), key=repr) for b in r.buckets]:
             return f"{where}: __getitem__ disagrees with rankings"
     ukeys = {(type(x).__name__, x) for x in uni}
     if {key(e) for e in ds.universe} != ukeys or ds.nb_elements != n:
